@@ -5,6 +5,7 @@ import (
 	"fmt"
 	"regexp"
 	"sort"
+	"strconv"
 	"strings"
 
 	"ariga.io/atlas/sql/sqlite"
@@ -230,7 +231,15 @@ func tableCatalog(db *sql.DB, name, createSQL string) (string, error) {
 		if k := strings.IndexByte(base, '('); k >= 0 {
 			base = strings.TrimSpace(base[:k])
 		}
-		lines = append(lines, fmt.Sprintf("col %s type=%s notnull=%d default=%s pk=%d%s", cname, base, notnull, norm(stripParens(dflt)), pk, gen))
+		def := norm(stripParens(dflt))
+		// On a column without text or blob affinity the spelling of a numeric default (1.0, 1.50,
+		// .5, 1e5) is not part of the schema: the number is.
+		if up := strings.ToUpper(base); !strings.Contains(up, "CHAR") && !strings.Contains(up, "CLOB") && !strings.Contains(up, "TEXT") && !strings.Contains(up, "BLOB") && up != "" {
+			if f, err := strconv.ParseFloat(def, 64); err == nil {
+				def = strconv.FormatFloat(f, 'g', -1, 64)
+			}
+		}
+		lines = append(lines, fmt.Sprintf("col %s type=%s notnull=%d default=%s pk=%d%s", cname, base, notnull, def, pk, gen))
 	}
 	rows.Close()
 	sort.Strings(checks)
